@@ -68,7 +68,7 @@ PROFILES = {
     "C13": dict(sel=lambda f: f["fl"] != "t" or f["idx"] % 5 == 0, pure=True,
                 events=["invw", "invall", "invwn", "invwb", "tag", "invc", "dep", "event"], threads=1, heavy_inval=True),
     "C14": dict(pingpong=True, echo=True, sel=lambda f: True, pure=True, events=[], threads=4),
-    "C20": dict(sel=lambda f: f["gates"] > 0, pure=False, events=[], threads=3, async_susp=True),
+    "C20": dict(async_cases=True, sel=lambda f: f["gates"] > 0, pure=False, events=[], threads=3, async_susp=True),
     "C04": dict(sel=lambda f: f["limit"] is not None and not f["inval_on"], pure=True, events=["invw", "invall", "tag", "invwb"], threads=2),
     # impure companions of C04: Result / invalidate_on / cache_if functions with an entry limit, scripted outcomes
     "C04R": dict(refresh=True, lifetime=True, sel=lambda f: f["limit"] is not None and (f["is_result"] or f["inval_on"] or f["cache_if"]),
@@ -108,6 +108,26 @@ def gen_chain_case(r, fns):
         evs.append("E 0 %s %s" % (kind, label))
         calls()
     return chain, evs
+
+
+def gen_slow_refresh_case(r, fns):
+    """a SLOW body between the lookup and the store of one call: the key is stored and expires; the next call finds it
+    expired and is suspended in its body while REAL time passes; resumed, it stores; the following call must be served
+    and the new entry must be as old as the store, not as the lookup"""
+    gated = [f for f in fns if f["gates"] and f["ttl"] and not f["cache_if"]]
+    if not gated:
+        return None
+    f = r.pick(gated)
+    T = f["ttl"] * 1000
+    x = r.below(3)
+    ev = lambda dt, kind, v, inv=0: "E %d %s %d %d 3 ok %d 8 %d 1" % (dt, kind, f["idx"], x, v, inv)
+    evs = [ev(0, "call", 1)]
+    evs.append(ev(T + r.pick([0, 1000]), "callA", 2))          # finds the entry expired, purges it, suspends in the body
+    evs.append("E %d rsleep %d" % (1000 + r.pick([1000, 2000]), 1100 + r.pick([0, 1000])))
+    evs.append("E 0 callB")
+    evs.append(ev(0, "call", 3))                               # must be served
+    evs.append(ev(1000, "call", 4))
+    return [f], evs
 
 
 def gen_async_case(r, fns):
@@ -370,9 +390,11 @@ def gen_bulk_inval_case(r, fns, prof):
 
 def gen_case(r, fns, prof, nev):
     if prof.get("async_susp"):
-        return gen_async_case(r, fns)
+        c = gen_slow_refresh_case(r, fns) if r.chance(1, 6) else None
+        return c or gen_async_case(r, fns)
     if prof.get("async_cases") and r.chance(1, 8):
-        return gen_async_case(r, fns)
+        c = gen_slow_refresh_case(r, fns) if r.chance(1, 2) else None
+        return c or gen_async_case(r, fns)
     if prof.get("heavy_inval") and r.chance(1, 10):
         c = gen_bulk_inval_case(r, fns, prof)
         if c:
